@@ -29,10 +29,11 @@ struct Case {
     work: Vec<(usize, Vec<POp>)>,
     sched: Option<Vec<usize>>,
     storm: Option<(usize, usize)>, // threads, records per thread on one shared span
+    hold: Option<(u64, usize)>,    // milliseconds the storage stays locked elsewhere, events emitted meanwhile
 }
 
 fn parse_case(lines: &[String]) -> Option<Case> {
-    let mut c = Case { sites: vec![], filter: Filt::All, shared: (0, 0), work: vec![], sched: None, storm: None };
+    let mut c = Case { sites: vec![], filter: Filt::All, shared: (0, 0), work: vec![], sched: None, storm: None, hold: None };
     for l in lines {
         let mut t = Toks::new(l);
         match t.next()? {
@@ -59,6 +60,7 @@ fn parse_case(lines: &[String]) -> Option<Case> {
             "sched" => c.sched = Some(t.rest().iter().filter_map(|x| x.parse().ok()).collect()),
             "free" => c.sched = None,
             "storm" => c.storm = Some((t.num()?, t.num()?)),
+            "hold" => c.hold = Some((t.num()?, t.num()?)),
             _ => return None,
         }
     }
@@ -290,6 +292,75 @@ fn run_free(c: &Case, out: &mut Outcome) {
     }
 }
 
+/// `hold ms n`: while the storage is kept locked elsewhere for `ms` milliseconds — by a reader
+/// inspecting it, then by another emitter whose value takes that long to format — a worker thread
+/// emits `n` events inside its span; every one of them must be captured once the lock is free.
+fn run_hold(c: &Case, ms: u64, n: usize, out: &mut Outcome) {
+    struct Slow(u64);
+    impl std::fmt::Debug for Slow {
+        fn fmt(&self, f: &mut std::fmt::Formatter<'_>) -> std::fmt::Result {
+            thread::sleep(std::time::Duration::from_millis(self.0));
+            f.write_str("slow")
+        }
+    }
+    let ev_site = Site { is_span: false, level: 2, name: "held-event".into(), target: "app".into(), module_path: None, file: None, line: None, fields: vec!["i".into()] };
+    let sp_site = Site { is_span: true, level: 2, name: "held-span".into(), target: "app".into(), module_path: None, file: None, line: None, fields: vec![] };
+    let slow_site = Site { is_span: false, level: 2, name: "slow-event".into(), target: "app".into(), module_path: None, file: None, line: None, fields: vec!["v".into()] };
+    let (ev_meta, sp_meta, slow_meta) = (crate::dynsite::metadata_for(&ev_site), crate::dynsite::metadata_for(&sp_site), crate::dynsite::metadata_for(&slow_site));
+    for phase in 0..2 {
+        let cfg = Config { layers: vec![c.filter.clone()], global: None, pass: vec![], per_layer: false, nested: false };
+        let (dispatch, storages) = cfg.build();
+        let storage = storages[0].clone();
+        let started = std::sync::Barrier::new(2);
+        thread::scope(|scope| {
+            let (d2, started) = (dispatch.clone(), &started);
+            let worker = scope.spawn(move || {
+                dispatcher::with_default(&d2, || {
+                    let vs = sp_meta.fields().value_set(&[]);
+                    let span = tracing::Span::new_root(sp_meta, &vs);
+                    let _g = span.enter();
+                    started.wait();
+                    thread::sleep(std::time::Duration::from_millis(ms / 4)); // the other side holds the lock by now
+                    for i in 0..n as u64 {
+                        let field = crate::dynsite::nth_field(ev_meta, 0);
+                        let value: &dyn tracing_core::field::Value = &i;
+                        let arr = [(&field, Some(value))];
+                        let vs = ev_meta.fields().value_set(&arr);
+                        tracing_core::Event::dispatch(ev_meta, &vs);
+                    }
+                });
+            });
+            if phase == 0 {
+                // a reader keeps the storage locked
+                started.wait();
+                let guard = storage.lock();
+                thread::sleep(std::time::Duration::from_millis(ms));
+                drop(guard);
+            } else {
+                // another emitter's event takes long to format while it holds the write lock
+                started.wait();
+                dispatcher::with_default(&dispatch, || {
+                    let field = crate::dynsite::nth_field(slow_meta, 0);
+                    let slow = tracing_core::field::debug(Slow(ms));
+                    let value: &dyn tracing_core::field::Value = &slow;
+                    let arr = [(&field, Some(value))];
+                    let vs = slow_meta.fields().value_set(&arr);
+                    tracing_core::Event::dispatch(slow_meta, &vs);
+                });
+            }
+            let _ = worker.join();
+        });
+        let lock = storage.lock();
+        let got = lock.all_events().filter(|e| e.metadata().name() == "held-event").count();
+        let attached = lock.all_events().filter(|e| e.metadata().name() == "held-event" && e.parent().map_or(false, |p| p.metadata().name() == "held-span")).count();
+        if got != n || attached != n {
+            out.fails.push(format!("C19 while the storage was locked elsewhere for {ms} ms ({}), a thread emitted {n} events inside its span: {got} captured, {attached} attached to the span", if phase == 0 { "a reader" } else { "another emitter formatting a slow value" }));
+        }
+    }
+    out.tags.push("hold".into());
+    out.tags.push("nontrivial".into());
+}
+
 /// For every handle index a thread's program uses: the shared span it refers to, if any (handles
 /// `0..n_shared` are the shared spans; `new` and `cln` append handles).
 fn shared_handles(ops: &[POp], n_shared: usize) -> Vec<Option<usize>> {
@@ -402,6 +473,9 @@ fn thread_sites(rng: &mut Rng, tid: usize) -> Vec<Site> {
 
 impl Suite for CapConc {
     fn gen(&self, rng: &mut Rng, tier: Tier, idx: usize, _focus: &str) -> Vec<String> {
+        if idx % 20 == 7 {
+            return vec!["lfilter 0 -".into(), format!("hold {} {}", rng.range(120, 200), rng.range(1, 5))];
+        }
         if idx % 10 == 9 {
             let (n, m) = (rng.range(2, 8), if tier == Tier::Quick { 2000 } else { 20000 });
             return vec!["lfilter 0 -".into(), format!("storm {n} {m}")];
@@ -466,6 +540,10 @@ impl Suite for CapConc {
         };
         if let Some((n, m)) = c.storm {
             run_storm(&c, n, m, &mut out);
+            return out;
+        }
+        if let Some((ms, n)) = c.hold {
+            run_hold(&c, ms, n, &mut out);
             return out;
         }
         match &c.sched {
